@@ -57,6 +57,15 @@ def build_jobs(prop, tier, seed, names, include_points=False, zero_cap_stream=Tr
                              "opts": {"max_arity": 8 if c % 2 else 6, "width": 2, "base": 2, "allow_all_zero": True},
                              "points": 0.05, "deadline_s": 100 if q else 900},
                             mode="jit" if c % 2 else "interp", timeout=400 if q else 1500, tag="deep:%d" % c))
+    if "lexicographic_leq" in names:
+        # the lexicographic automaton only shows its later states on vectors of length >= 3 with non-boolean domains
+        for c in range(2 if q else 4):
+            jobs.append(Job("framework.props.calls", "run_calls",
+                            {"props": props, "names": ["lexicographic_leq"], "kind": "random", "tier": tier,
+                             "seed": seed * 70001 + c * 13 + 5, "count": 6000 if q else 60000,
+                             "opts": {"max_arity": 6 if c % 2 == 0 else 8, "width": 2, "base": 1},
+                             "points": 0.02, "deadline_s": 100 if q else 900},
+                            mode="jit" if c % 2 == 0 else "interp", timeout=400 if q else 1500, tag="lex:%d" % c))
     if zero_cap_stream and "gcc" in names:
         # targeted stream for the gcc zero-capacity mechanism (interpreted only: the line budget cuts its endless loop)
         jobs.append(Job("framework.props.calls", "run_calls",
